@@ -51,6 +51,10 @@ func (fr *FnRun) resolveMods() []modLoc {
 					return
 				}
 				if m.X.Kind == "ident" && m.X.Name == "contents" && len(m.Args) == 1 {
+					if mv, ok := ex.force(entry, fr.eval(m.Args[0], env)).(*MapV); ok && mv.Obj != nil {
+						out = append(out, modLoc{obj: mv.Obj, whole: true, src: m.String()})
+						return
+					}
 					if s, ok := ex.force(entry, fr.eval(m.Args[0], env)).(*SliceV); ok && s.Arr != nil {
 						out = append(out, modLoc{obj: s.Arr, path: s.Base, whole: len(s.Base) == 0, src: m.String()})
 					}
